@@ -7,8 +7,14 @@ name, numbered from 1, `$$` ↦ `$`, everything else copied. Two implementations
 it: Go's `regexp.Expand` (`rxExpand`, used for regex rules) and the glob rules' own
 `NewTemplateFormatter`/`Format` (`compileTemplate`/`Formatter.format`).
 
-* regex side: equal to the specification for every template (`regex_expand_eq_spec`), up to the two
-  things the specification leaves out on purpose: `$0` and named groups.
+* regex side: equal to the specification (`regex_expand_eq_spec`) up to the two things the
+  specification leaves out on purpose — `$0` and named groups — and up to one genuine divergence:
+  Go's `extract` scans a reference name rune by rune (`unicode.IsLetter`/`IsDigit`/`_`), the
+  documented syntax and the glob formatter byte by byte over `[A-Za-z0-9_]`. In `$1é` the regex side
+  reads the name `1é` (no number, no group: empty), the other two read `$1` followed by `é`
+  (`unicode_letter_after_ref_counterexample`). The theorem therefore carries the decidable guard
+  `refsAsciiFollowed` (no reference name and no lone `$` is directly followed by a byte ≥ 0x80);
+  `rxExpand` answers `none` where a name rune is outside the modelled fragment of `nameRune`.
 * glob side: the reference regex has been repaired (`\$\{?([a-zA-Z0-9_]+)\}?`: the name class no
   longer contains `$`), so adjacent references expand (`adjacent_refs_expand`). The full-strength
   statement is still FALSE (two remaining defects, one counterexample each, plus the further
@@ -81,6 +87,16 @@ theorem dollar_escape_counterexample :
     (compileTemplate [36, 36, 49] 1).format [[102]] = some [36, 102] ∧
     expandSpec [[102]] 3 [36, 36, 49] = [36, 49] := by decide
 
+/-- Divergence `template_unicode_letter_after_ref`: `$1é` (`é` = C3 A9, a Unicode letter) with one
+    capture `f`. The glob formatter's regex and the documented syntax take the ASCII name `1` and copy
+    `é`: `fé`. Go's `regexp.Expand`, used for regex rules, scans the name rune by rune: the name is
+    `1é`, neither a number nor a group name, and the reference expands to nothing. (Here glob side and
+    specification agree; it is the regex side that differs from both.) -/
+theorem unicode_letter_after_ref_counterexample :
+    (compileTemplate [36, 49, 0xC3, 0xA9] 1).format [[102]] = some [102, 0xC3, 0xA9] ∧
+    expandSpec [[102]] 4 [36, 49, 0xC3, 0xA9] = [102, 0xC3, 0xA9] ∧
+    rxExpand [([], some [102]), ([], some [102])] 4 [36, 49, 0xC3, 0xA9] = some [] := by decide
+
 /-- Hence the unguarded statement is false (also after the repair): refuted by the prefix defect
     `$1-$11` — and equally by `100%-$1`, `$$`, `$01`, `${1`, `$1}`, see `glob_format_statement_false'`. -/
 theorem glob_format_statement_false : ¬ glob_format_statement := by
@@ -132,8 +148,9 @@ theorem glob_format_eq_spec_segs (segs : List Seg) (caps : List Bytes) (n : Nat)
 /-- **Partial C11** under the decidable guard `SafeTemplate tmpl`: the template reads as literals
     without `$` and `%` and references `$name`/`${name}` (`name` ∈ `[A-Za-z0-9_]+`, either a decimal
     number of ≤ 8 digits without leading zero or not purely numeric); a bare `$name` is followed by
-    the end or a byte outside `[a-zA-Z0-9_}]` (so `$`, i.e. the next reference, may follow
-    directly); no reference text is a proper prefix of another. -/
+    the end or an ASCII byte outside `[a-zA-Z0-9_}]` (so `$`, i.e. the next reference, may follow
+    directly; the restriction to ASCII is not needed for this theorem, it is what
+    `glob_regex_agree_partial` needs); no reference text is a proper prefix of another. -/
 theorem glob_format_eq_spec_partial (tmpl : Bytes) (caps : List Bytes) (n : Nat)
     (hs : SafeTemplate tmpl = true) (hc : caps.length ≤ n) :
     (compileTemplate tmpl n).format caps = some (expandSpec caps tmpl.length tmpl) := by
@@ -146,21 +163,43 @@ theorem glob_format_eq_spec_partial (tmpl : Bytes) (caps : List Bytes) (n : Nat)
 
 /-! ### regex side -/
 
-/-- **`regexp.Expand` = specification**, for every match `m` and every template `t`, provided every
-    reference name the scan meets is "good": numeric names are not `0`, non-numeric names are not
-    the name of a participating group of `m`. Captures are numbered from group 1; a group that did
-    not participate counts as empty (no participation hypothesis is needed). -/
+/-- **`regexp.Expand` = specification**, for every match `m` and every template `t` in which no
+    reference name and no lone `$` is directly followed by a byte ≥ 0x80 (`refsAsciiFollowed`, a
+    `Bool`; literal text may contain non-ASCII bytes elsewhere), provided every reference name the
+    scan meets is "good": numeric names are not `0`, non-numeric names are not the name of a
+    participating group of `m`. Captures are numbered from group 1; a group that did not participate
+    counts as empty (no participation hypothesis is needed). In particular the template is inside
+    the modelled fragment (`some`). -/
 theorem regex_expand_eq_spec (m : RxMatch) (t : Bytes)
-    (h : ∀ name ∈ refNames t.length t, refGood m name) :
-    rxExpand m t.length t = expandSpec (capsOf m) t.length t :=
-  rxExpand_eq_expandSpec m t.length t h
+    (h : ∀ name ∈ refNames t.length t, refGood m name)
+    (ha : refsAsciiFollowed t.length t = true) :
+    rxExpand m t.length t = some (expandSpec (capsOf m) t.length t) :=
+  rxExpand_eq_expandSpec m t.length t h ha
+
+/-- Without `refsAsciiFollowed` the statement is false: `$1é`. -/
+theorem regex_expand_unguarded_false :
+    ¬ ∀ (m : RxMatch) (t : Bytes), (∀ name ∈ refNames t.length t, refGood m name) →
+        rxExpand m t.length t = some (expandSpec (capsOf m) t.length t) := by
+  intro h
+  have hr : refNames 4 [36, 49, 0xC3, 0xA9] = [[49]] := by decide
+  have h1 := h [([], some [102]), ([], some [102])] [36, 49, 0xC3, 0xA9] (by
+    intro name hn
+    rw [show ([36, 49, 0xC3, 0xA9] : Bytes).length = 4 from rfl, hr, List.mem_singleton] at hn
+    subst hn
+    show (1 : Nat) ≠ 0
+    decide)
+  rw [show ([36, 49, 0xC3, 0xA9] : Bytes).length = 4 from rfl,
+    unicode_letter_after_ref_counterexample.2.2] at h1
+  revert h1
+  decide
 
 /-- The usual case: all groups of the regex are unnamed and the template does not mention `$0`. -/
 theorem regex_expand_eq_spec_unnamed (m : RxMatch) (t : Bytes)
     (hun : ∀ g ∈ m, g.1 = [])
-    (h0 : ∀ name ∈ refNames t.length t, rxNum name ≠ some 0) :
-    rxExpand m t.length t = expandSpec ((m.drop 1).map (·.2.getD [])) t.length t := by
-  apply regex_expand_eq_spec
+    (h0 : ∀ name ∈ refNames t.length t, rxNum name ≠ some 0)
+    (ha : refsAsciiFollowed t.length t = true) :
+    rxExpand m t.length t = some (expandSpec ((m.drop 1).map (·.2.getD [])) t.length t) := by
+  apply regex_expand_eq_spec _ _ _ ha
   intro name hn
   unfold refGood
   cases hk : rxNum name with
@@ -174,16 +213,39 @@ theorem regex_expand_eq_spec_unnamed (m : RxMatch) (t : Bytes)
     rw [← hp.1, hun g hg] at this
     exact this rfl
 
+/-- a template without `$` is copied by `regexp.Expand` whatever bytes it contains, and that is the
+    documented expansion -/
+theorem regex_no_dollar_identity (m : RxMatch) (t : Bytes) (caps : List Bytes) (h : cDollar ∉ t) :
+    rxExpand m t.length t = some t ∧ expandSpec caps t.length t = t :=
+  ⟨rxExpand_no_dollar m _ _ h,
+   findRefs_nil_expandSpec caps _ _ (findRefs_no_dollar _ _ h) (hasDollarDollar_no_dollar _ h)⟩
+
+/-- a safe template satisfies the regex-side guard (this is what the clause "ASCII after a bare
+    reference name" of `SafeTemplate` is for) -/
+theorem safe_refsAsciiFollowed (tmpl : Bytes) (hs : SafeTemplate tmpl = true) :
+    refsAsciiFollowed tmpl.length tmpl = true := by
+  unfold SafeTemplate at hs
+  simp only [Bool.and_eq_true, beq_iff_eq] at hs
+  obtain ⟨hflat, hsafe⟩ := hs
+  unfold SafeSegs at hsafe
+  simp only [Bool.and_eq_true] at hsafe
+  have := refsAsciiFollowed_flat _ _ (List.all_eq_true.mp hsafe.1.1) hsafe.1.2 (Nat.le_refl _)
+  rw [hflat] at this
+  exact this
+
 /-- **Glob and regex rules agree** on safe templates: if a regex rule with unnamed groups captures
     what the glob rule captures (`caps` = groups 1.. of `m`; this is the translated-regex contract,
-    a hypothesis here) and the template does not mention `$0`, both rules produce the same text. -/
+    a hypothesis here) and the template does not mention `$0`, both rules produce the same text
+    (and both are inside their modelled fragments). -/
 theorem glob_regex_agree_partial (tmpl : Bytes) (m : RxMatch) (n : Nat)
     (hs : SafeTemplate tmpl = true) (hc : (capsOf m).length ≤ n)
     (hun : ∀ g ∈ m, g.1 = [])
     (h0 : ∀ name ∈ refNames tmpl.length tmpl, rxNum name ≠ some 0) :
-    (compileTemplate tmpl n).format (capsOf m) = some (rxExpand m tmpl.length tmpl) := by
-  rw [glob_format_eq_spec_partial tmpl (capsOf m) n hs hc, regex_expand_eq_spec_unnamed m tmpl hun h0]
-  rfl
+    (compileTemplate tmpl n).format (capsOf m) = rxExpand m tmpl.length tmpl ∧
+    (rxExpand m tmpl.length tmpl).isSome = true := by
+  rw [glob_format_eq_spec_partial tmpl (capsOf m) n hs hc,
+    regex_expand_eq_spec_unnamed m tmpl hun h0 (safe_refsAsciiFollowed tmpl hs)]
+  exact ⟨rfl, rfl⟩
 
 /- Non-vacuity: the guard accepts real templates with several, adjacent-to-literal, adjacent-to-each-other
    and repeated references, rejects the two remaining defective ones (and `$$`, `$1}`), and the theorem's
@@ -213,7 +275,43 @@ example : (compileTemplate [120, 95, 36, 49, 36, 50, 95, 36, 123, 51, 125, 36, 4
 example : (compileTemplate [97, 36, 49, 46, 36, 123, 50, 125, 36, 49] 2).format [[120], [121, 122]]
     = some [97, 120, 46, 121, 122, 120] := by decide                    -- "a$1.${2}$1" ↦ "ax.yzx"
 example : rxExpand [([], some [119]), ([], some [120]), ([], none)] 8 [36, 49, 45, 36, 123, 50, 125, 33]
-    = [120, 45, 33] := by decide                                        -- "$1-${2}!" ↦ "x-!"
+    = some [120, 45, 33] := by decide                                   -- "$1-${2}!" ↦ "x-!"
 example : refNames 9 [36, 49, 45, 36, 123, 49, 50, 125, 36] = [[49], [49, 50]] := by decide
+
+
+/- Non-ASCII bytes: a non-ASCII literal that does not directly follow a bare reference name is accepted
+   by the strengthened guard (`é$1-x`, `${1}é`, `$1-é`), directly after a bare name it is not (`$1é`);
+   likewise for the regex-side guard, which also rejects `${1é}` and `$é`. -/
+example : SafeTemplate [0xC3, 0xA9, 36, 49, 45, 120] = true ∧               -- "é$1-x"
+          SafeTemplate [36, 123, 49, 125, 0xC3, 0xA9] = true ∧              -- "${1}é"
+          SafeTemplate [36, 49, 45, 0xC3, 0xA9] = true ∧                    -- "$1-é"
+          SafeTemplate [36, 49, 0xC3, 0xA9] = false := by                   -- "$1é"
+  with_unfolding_all decide
+example : refsAsciiFollowed 6 [0xC3, 0xA9, 36, 49, 45, 120] = true ∧        -- "é$1-x"
+          refsAsciiFollowed 6 [36, 123, 49, 125, 0xC3, 0xA9] = true ∧       -- "${1}é"
+          refsAsciiFollowed 4 [36, 49, 0xC3, 0xA9] = false ∧                -- "$1é"
+          refsAsciiFollowed 7 [36, 123, 49, 0xC3, 0xA9, 125, 45] = false ∧  -- "${1é}-"
+          refsAsciiFollowed 3 [36, 0xC3, 0xA9] = false := by decide         -- "$é"
+-- "é$1-x" and "${1}é" with capture `f`: all three sides agree
+example : (compileTemplate [0xC3, 0xA9, 36, 49, 45, 120] 1).format [[102]] = some [0xC3, 0xA9, 102, 45, 120] ∧
+          expandSpec [[102]] 6 [0xC3, 0xA9, 36, 49, 45, 120] = [0xC3, 0xA9, 102, 45, 120] ∧
+          rxExpand [([], some [119]), ([], some [102])] 6 [0xC3, 0xA9, 36, 49, 45, 120]
+            = some [0xC3, 0xA9, 102, 45, 120] := by decide
+example : (compileTemplate [36, 123, 49, 125, 0xC3, 0xA9] 1).format [[102]] = some [102, 0xC3, 0xA9] ∧
+          rxExpand [([], some [119]), ([], some [102])] 6 [36, 123, 49, 125, 0xC3, 0xA9]
+            = some [102, 0xC3, 0xA9] := by decide
+-- the same divergence inside braces: "${1é}" is the (empty) reference `1é` for `regexp.Expand`, malformed
+-- (copied) for the documented syntax; "$é" likewise
+example : rxExpand [([], some [119]), ([], some [102])] 6 [36, 123, 49, 0xC3, 0xA9, 125] = some [] ∧
+          expandSpec [[102]] 6 [36, 123, 49, 0xC3, 0xA9, 125] = [36, 123, 49, 0xC3, 0xA9, 125] ∧
+          rxExpand [([], some [119])] 3 [36, 0xC3, 0xA9] = some [] ∧
+          expandSpec [] 3 [36, 0xC3, 0xA9] = [36, 0xC3, 0xA9] := by decide
+-- a non-ASCII *group name* is looked up byte-wise: "${é}" with a group named `é`
+example : rxExpand [([], some [119]), ([0xC3, 0xA9], some [102])] 5 [36, 123, 0xC3, 0xA9, 125] = some [102] := by
+  decide
+-- outside the modelled fragment of `nameRune` (lead byte 0xCE: "$1α"): `none`, never a guess;
+-- an invalid byte (0xFF) ends the name like any non-letter
+example : rxExpand [([], some [119]), ([], some [102])] 4 [36, 49, 0xCE, 0xB1] = none ∧
+          rxExpand [([], some [119]), ([], some [102])] 3 [36, 49, 0xFF] = some [102, 0xFF] := by decide
 
 end SE.Props.C11
